@@ -25,15 +25,15 @@ CLAIMS = {
     "C06": {
         "level": "Kernel level only. Solver-decided on real code: (LS-topk) LimitSortIter returns exactly min(limit,n) distinct input items in "
                  "comparator order with no better item omitted, for all keys, n <= 7, limit 1..6 - i.e. never more than limit, never twice, and "
-                 "the first `limit` of the unlimited list; (TM-local) a record's verdict is unchanged by scoring another record in between. The "
-                 "composition into Store::search is an argument in DESIGN.md, not a solver result.",
+                 "the first `limit` of the unlimited list. The clause 'the verdict depends only on the record and the query' is NOT decided (three "
+                 "matcher calls in one harness exceed 24 GB); the composition into Store::search is an argument in DESIGN.md, not a solver result.",
         "note": STD_NOTE + " limit = 0 with non-empty input is excluded (Kani artefact F13). Store::search's wiring and the index cap are not executed.",
     },
     "C07": {
         "level": "Kernel level only. Solver-decided on real code: compare_hits is the documented lexicographic order on ALL score vectors (strict weak "
                  "order, ties only when all nine components incl. rating are equal) and LimitSortIter's output is determined by the multiset of keys "
                  "when they are distinct (so independent of insertion order). That two hits are ordered by their own vectors regardless of other "
-                 "records is glued from TM-local (C06).",
+                 "records follows from the scorer being a function of (record, query) - read, not solver-decided.",
         "note": STD_NOTE + " Store-level insertion-order experiments are not executable under Kani (DESIGN F10/F12).",
     },
     "C03": {
